@@ -72,18 +72,20 @@ def mentions_borrow(t):
     return False
 
 
-def prelude(defs, kotlin_errors=True):
-    """type definitions of the catalogue; defs = the DEFS record emitted by TLC"""
+def prelude(defs, kotlin_errors=True, type_attr=None):
+    """type definitions of the catalogue; defs = the DEFS record emitted by TLC.
+    type_attr: optional function type name -> attribute lines placed before the definition (namespaces, renames)"""
     err = "    #[diplomat::attr(kotlin, error)]\n" if kotlin_errors else ""
-    out = ["    #[diplomat::opaque]\n    pub struct Opq(pub u64);\n",
-           "    #[diplomat::opaque]\n    pub struct Host {\n        pub id: u64,\n        pub inner: Opq,\n        pub text: String,\n"
+    ta = (lambda n: type_attr(n)) if type_attr else (lambda n: "")
+    out = [ta("Opq") + "    #[diplomat::opaque]\n    pub struct Opq(pub u64);\n",
+           ta("Host") + "    #[diplomat::opaque]\n    pub struct Host {\n        pub id: u64,\n        pub inner: Opq,\n        pub text: String,\n"
            "        pub bytes: Vec<u8>,\n        pub floats: Vec<f64>,\n        pub words: Vec<u32>,\n        pub wide: Vec<u16>,\n    }\n",
-           err + "    pub enum En {\n        A,\n        B = 5,\n        C = -3,\n        D,\n    }\n"]
+           ta("En") + err + "    pub enum En {\n        A,\n        B = 5,\n        C = -3,\n        D,\n    }\n"]
     for name, fields in defs["structs"].items():
         lt = "<'a>" if name == "Brw" else ""
         attr = "    #[diplomat::out]\n" if name == "Os" else (err if name in ("Inner", "Wide") else "")
         fs = "".join("        pub f%d: %s,\n" % (i, rust_ty(f, "'a", in_struct=True)) for i, f in enumerate(fields))
-        out.append(attr + "    pub struct %s%s {\n%s    }\n" % (name, lt, fs))
+        out.append(ta(name) + attr + "    pub struct %s%s {\n%s    }\n" % (name, lt, fs))
     return USES + "".join(out)
 
 
@@ -130,7 +132,7 @@ CTORS = """    impl Opq {
 """
 
 
-def module(defs, cases, bodies=None, kotlin_errors=True, name="ffi", host_data=None):
+def module(defs, cases, bodies=None, kotlin_errors=True, name="ffi", host_data=None, type_attr=None):
     """cases: list of (n, sig). Returns (rust source, {n: symbol})"""
     by_host = {}
     syms = {}
@@ -145,7 +147,7 @@ def module(defs, cases, bodies=None, kotlin_errors=True, name="ffi", host_data=N
     import json as _j
     hd = host_data or ("x", [0], [0], [0])
     ctors = CTORS % (_j.dumps(hd[0], ensure_ascii=False), _j.dumps(hd[1]), _j.dumps(hd[2]), _j.dumps(hd[3]))
-    return "#[diplomat::bridge]\npub mod %s {\n%s%s%s}\n" % (name, prelude(defs, kotlin_errors), ctors, impls), syms
+    return "#[diplomat::bridge]\npub mod %s {\n%s%s%s}\n" % (name, prelude(defs, kotlin_errors, type_attr), ctors, impls), syms
 
 
 def uses_nonptr_option(sig):
